@@ -12,6 +12,8 @@ drv_registry ops (one history per line, one value out):
   hint  :=  U <str val> <str val>     str.upper() of a non-ASCII text
          |  L <str val> <str val>     str.lower() of a non-ASCII text
          |  F <fset val> <tuple val>  iteration order of a frozenset the code iterates
+         |  RL                        brine.load of this datagram hit the recursion limit
+         |  RD                        brine.dump of this event's reply hit the recursion limit
 
 Output: a tuple with one entry per d/c/s event,
   d:    ( alive ( reply? ) ( notes ) services )
@@ -28,6 +30,8 @@ inductive Hint where
   | upper (a b : List Nat)
   | lower (a b : List Nat)
   | fset (a b : List Val)
+  | loadOverflows
+  | dumpOverflows
 
 /-- a code point no text contains: an `upper`/`lower` the harness did not supply shows up as a mismatch -/
 def poison : List Nat := [0x110000]
@@ -44,8 +48,13 @@ def mkEnv (hs : List Hint) : Env where
   fsetIter := fun xs => (hs.findSome? (fun h => match h with
     | .fset a b => if sortCodes (keyCodes a) = sortCodes (keyCodes xs) then some b else none
     | _ => none)).getD xs
+  -- the interpreter's recursion limit, as observed for this event
+  loadOverflows := fun _ => hs.any (fun h => match h with | .loadOverflows => true | _ => false)
+  dumpOverflows := fun _ => hs.any (fun h => match h with | .dumpOverflows => true | _ => false)
 
 def parseHint : List String → Option (Hint × List String)
+  | "RL" :: rest => some (.loadOverflows, rest)
+  | "RD" :: rest => some (.dumpOverflows, rest)
   | k :: rest =>
     match parseVal rest with
     | some (a, rest1) => match parseVal rest1 with
